@@ -17,26 +17,40 @@ from harness.lib.core import VERIF, Ctx, Rng, lean_lock, run_driver
 from harness.rigs import config as R
 
 MANIFEST = {
-    "text": "Lean 4 proof about an executable model of the scenario loader (PrimaiteGame.from_config with the computer/server/switch/"
-            "router/firewall from_config paths, software install, users, folders/files, links, agents with action maps): for EVERY "
+    "text": "Lean 4 proof about an executable model of the scenario loader (PrimaiteGame.from_config with the computer/server/printer/"
+            "switch/router/firewall from_config paths, software install, users, folders/files, links, agents with action maps): for EVERY "
             "well-formed scenario AST the loader builds exactly the inventory the configuration documentation declares - nodes and "
             "their attributes, interfaces and addresses, ACL rules at their stated positions (incl. the six firewall ACLs), routes, "
-            "software with options, users, folders/files, links with bandwidths, agents (C20_build_eq_declared, full strength since the "
-            "F-22 repair: SoftwareManager.install replaces an installed namesake, proved as foldl installOne = last request per name; "
-            "C20_software_one_instance_per_name for EVERY node entry, well-formed or not; C20_configured_application_wins); "
-            "for EVERY permutation of the entries of EVERY mapping "
+            "software with options, users, folders/files, links with bandwidths, agents - EACH IN ITS DECLARED INITIAL STATE: the node in "
+            "its declared operating state (ON/OFF/BOOTING/SHUTTING_DOWN), every piece of software RUNNING iff its node is ON with the "
+            "configured starting health (for every combination of constructor-starts-it / service-or-application / configured-or-system "
+            "software), every interface wired iff a link of the file ends at it and enabled iff wired and its node ON (the links loop "
+            "with connect_link's refusal of a second link is followed and proved equal to the closed form) "
+            "(C20_build_eq_declared, full strength; C20_software_one_instance_per_name and C20_software_initial_state for EVERY node "
+            "entry, well-formed or not; C20_configured_application_wins); for EVERY permutation of the entries of EVERY mapping "
             "(network_interfaces, router ports, firewall ports, acl at both levels, action maps) the loader builds the same simulation "
-            "or raises the same error (C20_key_order_irrelevant, from one lemma per mapping-iteration site of the regenerated site "
+            "or raises the same error (C20_key_order_irrelevant, one lemma per mapping-iteration site of the regenerated site "
             "inventory; the ACL site reuses C07_add_commute); an episode schedule assembles variants(n mod len) then the base scenario "
-            "(C20_schedule_assembles/_periodic/_key_order). Tie: Gen/Config.lean (site inventory, default constants, system-software "
-            "tables, firewall ACL table, scheduler shape, shape of install/uninstall) + rig R-cfg: generated scenario families and every shipped "
-            "scenario (incl. the episode-scheduled directories) -> real from_config -> inventory walked from the object graph, diffed with "
-            "the driver's build and declared; permuted / reversed / re-serialised files compared by inventory and by seeded trajectory "
-            "digest. PARTIAL: wireless routers, printers, airspace, the observation space and the office-lan node set are outside the "
-            "Lean model (office-lan has a closed-form Python oracle in the rig); initial software/NIC states and the YAML text join of "
-            "schedules are checked by rig oracles, not theorems.",
-    "note": "C20-specific: option mappings handed wholesale to pydantic schemas are atoms in the model (canonical tokens made by the rig); "
-            "action_probabilities key order is C19's (F-29) and is kept in file order by the permutation rig.",
+            "(C20_schedule_assembles/_periodic/_key_order); the office-lan node set: a Lean model of OfficeLANAdder's loop builds, for "
+            "EVERY num_pcs / subnet / address block / router option / bandwidth, exactly the documented structure "
+            "(C20_office_build_eq_declared; _pc_wired, _pc_addressed, _addresses, _edge_uplinks, _router, _ports_distinct, "
+            "_invalid_refused). Tie: Gen/Config.lean (site inventory, default constants, system-software tables, firewall ACL table, "
+            "scheduler shape AND freshness (returns the object it has just parsed, stores nothing, no field to cache in), no loader "
+            "function consumes the mapping it is given, every software constructor applies configured options by plain assignment "
+            "(table of live attributes), shape of install/uninstall, office-lan constants / templates / wiring calls) + rig R-cfg: "
+            "generated scenario families, software-matrix scenarios (every configurable software type x non-default options x declared "
+            "operating state of the node) and every shipped scenario -> real from_config -> inventory walked from the object graph "
+            "(option EFFECTS read off the live attributes, initial states) diffed with the driver's build and declared; the same mapping "
+            "built a second time; environments built from a user-held mapping; schedule directories used the way reset() does (one "
+            "scheduler, episodes past the end, every combination built twice, answers handed straight to the loader, freshness probe, "
+            "real environment resets); permuted / reversed / re-serialised / aliased / merge-key / commented / quoted-integer files "
+            "compared by inventory and by seeded trajectory digest; office-lan node sets (incl. refused ones) diffed with the Lean adder. "
+            "PARTIAL: wireless routers, airspace, the defaults section, the observation space and reward sharing are outside the Lean "
+            "model; option mappings are atoms in the model (their effect on live attributes is a rig oracle + the Gen table); the game "
+            "section, the YAML text join of schedules and whole-scenario behaviour are checked by rig oracles, not theorems; after "
+            "reset() every node is powered on (F-31, not claimed: states are compared at load time).",
+    "note": "C20-specific: WellFormed now also asks for unique hostnames (needed to say which node a link end belongs to). "
+            "declared shares with build the list of install requests and the ascending-key order of extra NICs.",
     "technique": "Lean 4 theorems over an executable loader model; regenerated site inventory and tables; differential inventory rig",
     "design_ref": "5/C20",
 }
